@@ -21,7 +21,7 @@ THEOREMS = [
     "Privacy.precedence_partial", "Privacy.precedence_counterexample",
     "Privacy.parseRule_wellFormed", "Privacy.cli_rules_wellFormed", "Privacy.precedence_cli_partial",
     "Privacy.cli_never_raises", "Privacy.cli_rejects_backwards_range",
-    "Privacy.cache_transparent", "Privacy.cache_counterexample", "Privacy.isVisible_meaning",
+    "Privacy.cache_transparent", "Privacy.cache_transparent_moves", "Privacy.cache_counterexample", "Privacy.isVisible_meaning",
     "Privacy.main_module_counterexample",
 ]
 PARTIAL = {
@@ -35,6 +35,7 @@ PARTIAL = {
                                       "excluded = modules named __main__ (open finding); witness Privacy.main_module_counterexample",
     "Privacy.cache_transparent": "hypothesis: two queried objects with the same qualified name have the same name and kind "
                                  "(the cache is keyed by qualified name only); witness Privacy.cache_counterexample",
+    "Privacy.cache_transparent_moves": "same hypothesis over every record an object has during the history (initial world and moves)",
 }
 RULE = ("exhaustive: every pattern of length <= 4 (quick) / <= 5 (thorough) over {a b . * ? [ ] ! - _} x every name of length "
         "<= 4 / <= 5 over {a b . _}: text of qnmatch.translate, result or exception class of qnmatch.qnmatch vs the Lean model, "
@@ -44,7 +45,9 @@ RULE = ("exhaustive: every pattern of length <= 4 (quick) / <= 5 (thorough) over
         "real System with random query histories (privacyClass / isVisible / isPrivate, cache content compared), and the same "
         "over 6 rule texts aimed at duplicate definitions (superseded 'p.d.K 0' with members, 'p.d.K.f 0', 'f 1', '_g 0'); every pattern "
         "of the exhaustive space through parse_privacy_tuple (accepted iff well formed); hand-made rule lists put into "
-        "options.privacy directly (the only way a pattern re refuses still reaches qnmatch). Non-trivial = pattern has a metacharacter and some "
+        "options.privacy directly (the only way a pattern re refuses still reaches qnmatch); query histories interleaved with "
+        "Documentable.reparent() of classes with members (moves into other modules, renames in place), every answer judged "
+        "for the object's current qualified name. Non-trivial = pattern has a metacharacter and some "
         "name matches and some does not (glob streams) / the list has a rule that applies to a queried object (privacy streams).")
 ASSUMPTIONS = [
     "re.compile/match of CPython 3.12 on the emitted fragment behaves as Regex.parseSet/Regex.matchA say (exercised by every glob stream)",
@@ -510,6 +513,8 @@ def build_system(rule_strings: Sequence[str], via: Any = False):
         ob = getattr(system, cls)(system, full.rpartition(".")[2], parent)
         if full in KIND_NONE:
             ob.kind = None
+        if parent is not None and not isinstance(ob, model.Module):
+            ob.parentMod = parent if isinstance(parent, model.Module) else parent.parentMod
         system.addObject(ob)
         objs[full] = ob
     with contextlib.redirect_stderr(io.StringIO()):   # "duplicate Class 'p.d.K'" reports
@@ -519,6 +524,7 @@ def build_system(rule_strings: Sequence[str], via: Any = False):
                 ob.parentMod = objs[plabel] if isinstance(objs[plabel], model.Module) else objs[plabel].parentMod
             system.addObject(ob)
             objs[label] = ob
+    system._c13_labels = objs   # creation label -> object (labels stay when objects are moved)
     return system, {ob.fullName(): ob for ob in objs.values()}
 
 
@@ -539,6 +545,17 @@ def obj_token(ob) -> str:
     from pydoctor import model
     return "%s/%s/%s%s%s" % (enc(ob.fullName()), enc(ob.name), "m" if isinstance(ob, model.Module) else "o",
                              "n" if ob.kind is None else "k", "e" if is_entry(ob) else "s")
+
+
+def cache_repr(system) -> str:
+    """canonical form of System._privacyClassCache: `qualified name=LEVEL` in insertion order. A key that is not a
+    string (a cache keyed by object, say) is shown under the object's current qualified name: a change of
+    representation is then a disagreement with the model, not a crash of the harness."""
+    items = []
+    for k, v in system._privacyClassCache.items():
+        key = k if isinstance(k, str) else k.fullName() if hasattr(k, "fullName") else repr(k)
+        items.append(f"{enc(key)}={getattr(v, 'name', v)}")
+    return ",".join(items) or "-"
 
 
 def chain_of(ob):
@@ -636,7 +653,7 @@ def privacy_eval(rules: Sequence[Tuple[str, str]], queries: Sequence[Tuple[str, 
                               f"module {mains[0].fullName()}: {meth} of {full} is {got}, the documented rules give {want} (--privacy {rule_strings})"))
             else:
                 fails.append(("privacy-differs:" + op, inp, f"{full}.{meth} = {got}, the documented rules give {want} (--privacy {rule_strings})"))
-    cache = ",".join(f"{enc(k)}={v.name}" for k, v in system._privacyClassCache.items()) or "-"
+    cache = cache_repr(system)
     return {"line": " ".join(req), "impl": " ".join(answers) + " | " + cache, "answers": answers, "fails": fails,
             "applies": applies, "rules": rule_strings, "queries": [list(q) for q in queries]}
 
@@ -661,6 +678,140 @@ def privacy_stream(ctx: Ctx, stream: str, jobs: List[Tuple[Any, Any, bool]]) -> 
             ctx.fail(*f)
     ctx.compare(stream, [r["line"] for r in results], [r["impl"] for r in results],
                 [{"rules": r["rules"], "queries": r["queries"]} for r in results])
+
+
+# ---- query histories with moves (Documentable.reparent, what an __all__ re-export does)
+
+MOVERS = ["p.m.C", "p.m._C", "p._m.B", "p._m.C", "K2", "p.m.a"]          # creation labels; classes with members, one attribute
+TARGETS = ["p.m", "p._m", "d", "p"]   # creation labels ("d" is the module p.d)
+MOVE_RULE_TEXTS = ["p.m.**", "p._m.**", "p.d.**", "p.*.C.*", "**.Moved", "**.Moved.*", "p.m.C", "p._m.C.f", "p.d.C", "**._*"]
+
+
+def rand_move_events(rng, n: int) -> List[tuple]:
+    labels = [t[0] for t in TREE] + [t[0] for t in DUP_TREE]
+    evs: List[tuple] = []
+    for _ in range(n):
+        r = rng.random()
+        if r < 0.18:
+            lab = rng.choice(MOVERS)
+            base = {"K2": "K"}.get(lab, lab.rpartition(".")[2])
+            name = rng.choice([base, base, "_" + base.lstrip("_"), base.lstrip("_") or "X", "Moved"])
+            evs.append(("M", lab, rng.choice(TARGETS + ["="]), name))   # "=": rename in place
+        elif evs and r < 0.4:
+            prev = [e for e in evs if e[0] != "M"]
+            evs.append((rng.choice("cvp"), rng.choice(prev)[1]) if prev else ("c", rng.choice(labels)))
+        else:
+            lab = rng.choice(labels)
+            if rng.random() < 0.5:   # prefer what sits below a mover
+                lab = rng.choice([l for l in labels if any(l.startswith(m + ".") or l == m for m in MOVERS)] + ["K2.m", "f3"])
+            evs.append((rng.choice("ccvp"), lab))
+    return evs
+
+
+def moves_eval(rules: Sequence[Tuple[str, str]], events: Sequence[tuple]) -> Dict[str, Any]:
+    """queries interleaved with reparent() on one real System; every answer is judged against the documented rules for
+    the object's CURRENT qualified name, computed afresh"""
+    from pydoctor import model
+    rule_strings = [f"{lv}:{pat}" for lv, pat in rules]
+    fails: List[Tuple[str, Any, str]] = []
+    payload = {"rules": rule_strings, "events": [list(e) for e in events]}
+    head = ["privacy world"] + [f"V {enc(r)}" for r in rule_strings]
+    try:
+        with contextlib.redirect_stderr(io.StringIO()):
+            system, _ = build_system(rule_strings, False)
+    except SystemExit:
+        return {"line": " ".join(head + ["W", ";".join(static_obj_token(n) for n in tree_info())]), "impl": "SystemExit",
+                "fails": fails, "applies": False, "payload": payload, "moves": 0}
+    labels: Dict[str, Any] = system._c13_labels
+    order = list(labels.values())
+    ident = {id(ob): i for i, ob in enumerate(order)}
+    parsed = [(lv.name, pat) for lv, pat in system.options.privacy]
+    toks = [obj_token(ob) for ob in order]
+    req = head + ["W", ";".join(toks)]
+    answers: List[str] = []
+    moved: set = set()
+    nmoves = 0
+    applies = False
+    for ev in events:
+        if ev[0] == "M":
+            _, lab, target, name = ev
+            ob = labels[lab]
+            new_parent = ob.parent if target == "=" else labels[target]
+            if not is_entry(ob) or not isinstance(ob.parent, model.CanContainImportsDocumentable):
+                continue   # reparent() needs the object to be its parent's contents entry
+            if new_parent is ob.parent and name == ob.name:
+                continue
+            with contextlib.redirect_stderr(io.StringIO()):
+                ob.reparent(new_parent, name)
+            nmoves += 1
+            moved.update(id(o) for o in system._objectsBelow(ob))
+            new = [obj_token(o) for o in order]
+            upd = [f"{i}={new[i]}" for i in range(len(order)) if new[i] != toks[i]]
+            toks = new
+            if upd:
+                req.append("M " + ";".join(upd))
+            continue
+        op, lab = ev
+        ob = labels[lab]
+        ch = chain_of(ob)
+        scope = ch if op == "v" else [ob]
+        req.append("A %s %s" % (op, ",".join(str(ident[id(x)]) for x in scope)))
+        try:
+            got = ob.privacyClass.name if op == "c" else str(ob.isVisible) if op == "v" else str(ob.isPrivate)
+        except Exception as e:
+            got = exc_name(e)
+        answers.append(got)
+        lv = o_level(parsed, ob)
+        want = lv if op == "c" else str(lv != "PUBLIC") if op == "p" else \
+            str(all(o_level(parsed, x) != "HIDDEN" for x in ch) and all(is_entry(x) for x in ch))
+        if any(pat == x.fullName() or o_qnmatch(x.fullName(), pat) for _, pat in parsed for x in scope):
+            applies = True
+        if got != want:
+            inp = dict(payload, failing_event=[op, lab], current_name=ob.fullName())
+            meth = {"c": "privacyClass", "v": "isVisible", "p": "isPrivate"}[op]
+            mains = [x for x in scope if isinstance(x, model.Module) and x.name == "__main__"]
+            if got.endswith("Error"):
+                fails.append((f"raises:{got}:" + ("descending-range" if any(not o_wellformed(o_tokens(p)) for _, p in parsed) else "other"),
+                              inp, f"{ob.fullName()}.{meth} raised {got} under --privacy {rule_strings}"))
+            elif mains:
+                ruled = any(pat == mains[0].fullName() or o_qnmatch(mains[0].fullName(), pat) for _, pat in parsed)
+                fails.append(("main-module:" + ("rule-ignored" if ruled else "default-private"), inp,
+                              f"module {mains[0].fullName()}: {meth} of {ob.fullName()} is {got}, the documented rules give {want}"))
+            elif any(id(x) in moved for x in scope):
+                fails.append(("stale-after-move:" + op, inp,
+                              f"after a move, {meth} of {ob.fullName()} (created as {lab}) is {got}; the documented rules give {want} "
+                              f"for its current qualified name (--privacy {rule_strings})"))
+            else:
+                fails.append(("privacy-differs:" + op, inp, f"{ob.fullName()}.{meth} = {got}, the documented rules give {want} (--privacy {rule_strings})"))
+    return {"line": " ".join(req), "impl": " ".join(answers) + " | " + cache_repr(system), "fails": fails,
+            "applies": applies, "payload": payload, "moves": nmoves, "answers": answers}
+
+
+def _moves_chunk(jobs):
+    warnings.filterwarnings("ignore", category=FutureWarning)
+    return [moves_eval(*j) for j in jobs]
+
+
+def run_moves(ctx: Ctx) -> None:
+    tree_info()
+    rng = ctx.rng
+    jobs = []
+    for _ in range(800 if ctx.quick else 15000):
+        rules = [(rng.choice(LEVELS), rng.choice(MOVE_RULE_TEXTS) if rng.random() < 0.7 else rand_rule_text(rng))
+                 for _ in range(rng.randint(1, 4))]
+        jobs.append((rules, rand_move_events(rng, 18)))
+    step = 100
+    chunks = [jobs[i:i + step] for i in range(0, len(jobs), step)]
+    with multiprocessing.get_context("fork").Pool(16) as pool:
+        results = [r for part in pool.map(_moves_chunk, chunks) for r in part]
+    for r in results:
+        nontriv = r["applies"] and r["moves"] > 0
+        ctx.case(r["line"], nontriv, dict(r["payload"], impl=r.get("answers")) if nontriv and ctx.dist.get("privacy-moves:cases", 0) < 1 else None)
+        ctx.count("privacy-moves:cases")
+        ctx.count("privacy-moves:moves", r["moves"])
+        for f in r["fails"]:
+            ctx.fail(*f)
+    ctx.compare("privacy-moves", [r["line"] for r in results], [r["impl"] for r in results], [r["payload"] for r in results])
 
 
 def rand_queries(rng, k: int, under: str = "") -> List[Tuple[str, str]]:
@@ -747,6 +898,7 @@ def run(ctx: Ctx) -> None:
     run_exhaustive(ctx)
     run_random(ctx)
     run_privacy(ctx)
+    run_moves(ctx)
     run_parse(ctx)
 
 
@@ -786,6 +938,18 @@ def replay(ctx: Ctx, obj) -> int:
             inp["value"].partition(":")[0].strip().upper() in ("PUBLIC", "PRIVATE", "HIDDEN", "VISIBLE")
         print("oracle :", "a pattern with a meaning in the manual is refused" if bad else "property holds on this input")
         return 1 if bad else 0
+    if isinstance(inp, dict) and "events" in inp:
+        rules = [tuple(r.split(":", 1)) for r in inp["rules"]]
+        r = moves_eval(rules, [tuple(e) for e in inp["events"]])
+        print("rules  :", inp["rules"])
+        print("events :", inp["events"])
+        print("impl   :", r["impl"])
+        try:
+            print("model  :", ctx.driver.run([r["line"]])[0])
+        except Exception as e:
+            print("model  : unavailable", e)
+        print("oracle :", "; ".join(sorted({f[2] for f in r["fails"]})) if r["fails"] else "property holds on this input")
+        return 1 if r["fails"] else 0
     if isinstance(inp, dict) and "rules" in inp:
         rules = [tuple(r.split(":", 1)) for r in inp["rules"]]
         r = privacy_eval(rules, [tuple(q[:2]) for q in inp["queries"]], False)
